@@ -95,18 +95,36 @@ theorem mapM_adopt {spec : ValueType} (hspec : spec = vtUnknown ∨ PT.basic spe
           simp [PT.varsMatch, PT.varsKnown, hv'.1, hv'.2, m1, m3]
           exact m2
 
+theorem hasValue_of_dt {e : Expr} (h1 : (Expr.valueType e).dt ≠ .unknown) (h2 : (Expr.valueType e).dt ≠ .multiple) :
+    PT.hasValue e = true := by
+  simp [PT.hasValue, h1, h2]
+
+theorem hasValue_of_basic {e : Expr} (h : PT.basic (Expr.valueType e) = true) : PT.hasValue e = true := by
+  apply hasValue_of_dt <;> (intro hd; simp [PT.basic, hd] at h)
+
 theorem default_ok {vt : ValueType} {e : Expr} (hb : vt = vtUnknown ∨ PT.basic vt = true) (h : defaultVarValue vt = some e) :
-    PT.expr e = true ∧ PT.callArity1 e = true ∧ vt.equals (Expr.valueType e) = true := by
+    PT.expr e = true ∧ PT.callArity1 e = true ∧ vt.equals (Expr.valueType e) = true ∧ PT.hasValue e = true := by
   unfold defaultVarValue at h
   obtain ⟨dt, sl⟩ := vt
   cases sl
-  · cases dt <;> simp at h <;> subst h <;> simp [PT.expr, PT.callArity1, Expr.valueType, ValueType.equals]
+  · cases dt <;> simp at h <;> subst h <;> simp [PT.expr, PT.callArity1, Expr.valueType, ValueType.equals, PT.hasValue]
   · simp at h
     subst h
     rcases hb with hb | hb
     · simp [vtUnknown] at hb
     · simp only [PT.basic] at hb
-      simp [PT.expr, PT.elems, PT.callArity1, Expr.valueType, ValueType.equals, basicDt, hb]
+      refine ⟨?_, ?_, ?_, ?_⟩
+      · simp [PT.expr, PT.elems, basicDt, hb]
+      · rfl
+      · simp [Expr.valueType, ValueType.equals]
+      · apply hasValue_of_dt <;> (simp only [Expr.valueType]; intro hu; simp [hu] at hb)
+
+theorem vals1_cons {e : Expr} {rest : List Expr} : PT.vals1 (e :: rest) = true ↔
+    PT.expr e = true ∧ PT.callArity1 e = true ∧ PT.hasValue e = true ∧ PT.vals1 rest = true := by
+  simp only [PT.vals1, Bool.and_eq_true]
+  constructor
+  · rintro ⟨⟨⟨h1, h2⟩, h3⟩, h4⟩; exact ⟨h1, h2, h3, h4⟩
+  · rintro ⟨h1, h2, h3, h4⟩; exact ⟨⟨⟨h1, h2⟩, h3⟩, h4⟩
 
 theorem mapM_default {spec : ValueType} (hspec : spec = vtUnknown ∨ PT.basic spec = true) :
     ∀ {vars : List Var} {vals : List Expr}, vars.mapM (fun v => defaultVarValue v.vt) = some vals →
@@ -128,10 +146,13 @@ theorem mapM_default {spec : ValueType} (hspec : spec = vtUnknown ∨ PT.basic s
         simp [h1, h2] at h
         subst h
         obtain ⟨m1, m2, m3⟩ := ih h2 (fun x hx => hv x (List.mem_cons_of_mem _ hx))
-        obtain ⟨d1, d2, d3⟩ := default_ok (hvs ▸ hspec) h1
+        obtain ⟨d1, d2, d3, d4⟩ := default_ok (hvs ▸ hspec) h1
         simp only [PT.varsKnown, List.all_eq_true] at m3
-        simp [PT.vals1, PT.varsMatch, PT.varsKnown, d1, d2, m1, m2, hvs, known_unknown_or_basic hspec]
-        exact ⟨hvs ▸ d3, m3⟩
+        refine ⟨vals1_cons.mpr ⟨d1, d2, d4, m1⟩, ?_, ?_⟩
+        · simp only [List.map_cons, PT.varsMatch, Bool.and_eq_true]
+          exact ⟨d3, m2⟩
+        · simp only [PT.varsKnown, List.all_cons, Bool.and_eq_true, List.all_eq_true]
+          exact ⟨hvs ▸ known_unknown_or_basic hspec, m3⟩
 
 theorem multi_single {values : List Expr} {ts : List ValueType} (h : multiReturnTypes values = some ts) :
     ∃ c, values = [c] := by
@@ -161,13 +182,15 @@ theorem valuesTypes_known {first : Bool} {values : List Expr} (h : valsP first v
       · rename_i n rets args
         split at hm
         · simp only [Option.some.injEq] at hm; subst hm
-          simp only [PT.vals1, PT.expr, Bool.and_eq_true] at h1
-          exact h1.1.1.2
+          have h1' := (vals1_cons.mp h1).1
+          simp only [PT.expr, Bool.and_eq_true] at h1'
+          exact all_basic_known h1'.2
         · simp at hm
       · simp at hm; subst hm; rfl
       · simp at hm
   · simp only [exprP, PT.expr, Bool.and_eq_true] at hc
-    simp [valuesTypes, multiReturnTypes, hr, hc.2]
+    have := all_basic_known hc.2
+    simpa [valuesTypes, multiReturnTypes, hr] using this
 
 /-- definitions, assignments and element assignments: the statements that may stand anywhere -/
 def isSimple : Stmt → Bool
@@ -262,7 +285,7 @@ theorem varDefinition_post (E : ∀ fuel, ExprIH fuel) (fuel : Nat) (ctx : Ctx) 
           have hmt := multi_eq [call] call ts hm rfl
           have hcall : PT.expr call = true := by
             rcases hvals.2 with h1 | ⟨_, c, hc1, hc2, _⟩
-            · simp only [PT.vals1, Bool.and_eq_true] at h1; exact h1.1.1
+            · exact (vals1_cons.mp h1).1
             · simp only [List.cons.injEq, and_true] at hc1; subst hc1; exact hc2
           have htypes : valuesTypes [call] = ts := by simp [valuesTypes, hm]
           simp only [stmtP, PT.stmt, hcall, hne, hv'.2.1, hmt, htypes ▸ hv'.1, Bool.not_false, Bool.and_self]
@@ -301,16 +324,20 @@ theorem varDefinition_post (E : ∀ fuel, ExprIH fuel) (fuel : Nat) (ctx : Ctx) 
     · exact key ()
   · exact key ()
 theorem single_type {first : Bool} {value : Expr} {rest : List Expr} {t : ValueType} (hv : valsP first (value :: rest))
-    (ht : valuesTypes (value :: rest) = [t]) : rest = [] ∧ t = Expr.valueType value ∧ PT.expr value = true := by
-  have he : PT.expr value = true := by
-    rcases hv.2 with h1 | ⟨_, c, hc1, hc2, _⟩
-    · simp only [PT.vals1, Bool.and_eq_true] at h1; exact h1.1.1
-    · simp only [List.cons.injEq] at hc1; exact hc1.1 ▸ hc2
+    (ht : valuesTypes (value :: rest) = [t]) :
+    rest = [] ∧ t = Expr.valueType value ∧ PT.expr value = true ∧ PT.hasValue value = true := by
   unfold valuesTypes at ht
   cases hm : multiReturnTypes (value :: rest) with
   | none =>
     simp only [hm, List.map_cons, List.cons.injEq, List.map_eq_nil_iff] at ht
-    exact ⟨ht.2, ht.1.symm, he⟩
+    rcases hv.2 with h1 | ⟨_, c, hc1, _, n, rets, args, hc3, hr⟩
+    · obtain ⟨he, _, hu, _⟩ := vals1_cons.mp h1
+      exact ⟨ht.2, ht.1.symm, he, hu⟩
+    · exfalso
+      simp only [List.cons.injEq] at hc1
+      obtain ⟨rfl, rfl⟩ := hc1
+      subst hc3
+      simp [multiReturnTypes, hr] at hm
   | some ts =>
     exfalso
     simp only [hm] at ht
@@ -375,14 +402,20 @@ theorem compound_post (E : ∀ fuel, ExprIH fuel) (fuel : Nat) (ctx : Ctx) (hc :
       pm_if
       · exact Post.err
       refine Post.pure' ⟨?_, rfl⟩
-      obtain ⟨hr, rfl, he⟩ := single_type hvals hv
+      obtain ⟨hr, rfl, he, hu⟩ := single_type hvals hv
       have hk := hc.var hf
       have hb := allowedBinary_ok (vt := Expr.valueType value) (op := (a.val.take 1).toString) (by simp_all)
       have heq : Expr.valueType value = v.vt := by simp_all
       rw [← heq] at hk
-      simp [stmtP, PT.stmt, PT.vals1, PT.expr, PT.callArity1, PT.varsMatch, PT.varsKnown, Expr.valueType, he,
-        ← heq]
-      exact ⟨⟨⟨⟨hk, equals_refl _⟩, by simpa using hb⟩, equals_refl _⟩, hk⟩
+      have hasBin : PT.hasValue (Expr.binary (a.val.take 1).toString (Expr.varEval v) value) = true := by
+        apply hasValue_of_dt <;>
+          (simp only [Expr.valueType, ← heq]; intro hd; simp [binaryAllowed, hd] at hb)
+      have hbin : PT.expr (Expr.binary (a.val.take 1).toString (Expr.varEval v) value) = true := by
+        simp only [PT.expr, Expr.valueType, he, ← heq, hk, equals_refl, hb, Bool.and_self]
+      have h1 : PT.vals1 [Expr.binary (a.val.take 1).toString (Expr.varEval v) value] = true :=
+        vals1_cons.mpr ⟨hbin, rfl, hasBin, rfl⟩
+      simp only [stmtP, PT.stmt, h1, List.map_cons, List.map_nil, PT.varsMatch, Expr.valueType, equals_refl, PT.varsKnown,
+        List.all_cons, List.all_nil, ← heq, hk, List.isEmpty_cons, Bool.not_false, Bool.and_self]
     · exact Post.err
     · rename_i _ _ _ hno2 hlen hno1
       refine Post.unreachable ?_
@@ -487,7 +520,7 @@ theorem varAssignment_post (E : ∀ fuel, ExprIH fuel) (fuel : Nat) (ctx : Ctx) 
     have hmt := multi_eq [call] call ts hm rfl
     have hcall : PT.expr call = true := by
       rcases hvals.2 with h1 | ⟨_, c, hc1, hc2, _⟩
-      · simp only [PT.vals1, Bool.and_eq_true] at h1; exact h1.1.1
+      · exact (vals1_cons.mp h1).1
       · simp only [List.cons.injEq, and_true] at hc1; subst hc1; exact hc2
     have htypes : valuesTypes [call] = ts := by simp [valuesTypes, hm]
     simp only [stmtP, PT.stmt, hcall, hne, hv.2.1, hmt, htypes ▸ hv.1, Bool.not_false, Bool.and_self]
@@ -555,7 +588,7 @@ theorem incDec_post (ctx : Ctx) (hc : CtxOK ctx) : Post (evalIncDec ctx) simpleP
     intro b
     cases b <;>
       simp [stmtP, incDecStmt, PT.stmt, PT.vals1, PT.expr, PT.callArity1, PT.varsMatch, PT.varsKnown, Expr.valueType, hv,
-        ValueType.equals, binaryAllowed, PT.known]
+        ValueType.equals, binaryAllowed, PT.known, PT.hasValue]
   pm_bind; intro o
   pm_if
   · exact Post.pure' ⟨fin true, rfl⟩
